@@ -647,4 +647,88 @@ theorem greedy_capped (inp : Input) (out : Out) (hc : Consistent inp) (h : distr
   rw [splitGroup_slot]
   exact ⟨slotFin_le_ub s hok hf, hok.2.2.2.1⟩
 
+/-! ## admission by the advertised bounds covers the minimum powers -/
+
+theorem sumL_map_le {α : Type} (f g : α → Rat) : ∀ l : List α, (∀ x ∈ l, f x ≤ g x) → sumL (l.map f) ≤ sumL (l.map g)
+  | [], _ => by simp only [List.map_nil, sumL_nil]; grind
+  | x :: l, h => by
+    have := sumL_map_le f g l (fun y hy => h y (List.mem_cons_of_mem _ hy))
+    have := h x List.mem_cons_self
+    simp only [List.map_cons, sumL_cons]; grind
+
+theorem minL_le_sumL (l : List Rat) (hne : l ≠ []) (h : ∀ x ∈ l, 0 ≤ x) : minL l ≤ sumL l := by
+  cases l with
+  | nil => exact absurd rfl hne
+  | cons x xs =>
+    have h1 := (foldl_pyMin_le xs x).1
+    have h2 := sumL_nonneg xs (fun y hy => h y (List.mem_cons_of_mem _ hy))
+    simp only [minL, sumL_cons]; grind
+
+theorem pyMax_mono_right (a b c : Rat) (h : b ≤ c) : pyMax a b ≤ pyMax a c := by
+  unfold pyMax; split_ifs <;> grind
+
+theorem pyMax_neg_le (a b : Rat) : pyMax (-a) (-b) ≤ -(pyMin a b) := by
+  unfold pyMin pyMax; split_ifs <;> grind
+
+theorem group_min_le_advertised (g : Group) (hg : GroupConsistent g) :
+    minPOf (normGroup false g) ≤ poolGroupExclUpper (aggregate g.bats).eu (sumL (g.invs.map (·.eu))) ∧
+    minPOf (normGroup true g) ≤ -(poolGroupExclLower (aggregate g.bats).el (sumL (g.invs.map (·.el)))) := by
+  obtain ⟨_, hne, _, hi, _, _⟩ := hg
+  have e1 : (normGroup false g).invs.map (·.excl) = g.invs.map (·.eu) := by
+    simp only [normGroup, List.map_map]; apply List.map_congr_left; intro i _; rfl
+  have e2 : (normGroup true g).invs.map (·.excl) = g.invs.map (fun i => -i.el) := by
+    simp only [normGroup, List.map_map]; apply List.map_congr_left; intro i _; rfl
+  constructor
+  · unfold minPOf minPower poolGroupExclUpper
+    rw [e1]
+    have : (normGroup false g).batExcl = (aggregate g.bats).eu := rfl
+    rw [this]
+    apply pyMax_mono_right
+    apply minL_le_sumL _ (by simpa using hne)
+    intro x hx; obtain ⟨i, hi', rfl⟩ := List.mem_map.mp hx; exact (hi i hi').2.2.1
+  · unfold minPOf minPower poolGroupExclLower
+    rw [e2]
+    have : (normGroup true g).batExcl = -(aggregate g.bats).el := rfl
+    rw [this]
+    have hs : sumL (g.invs.map fun i => -i.el) = -sumL (g.invs.map (·.el)) := sumL_map_neg _ _
+    have hm : minL (g.invs.map fun i => -i.el) ≤ -sumL (g.invs.map (·.el)) := by
+      rw [← hs]
+      apply minL_le_sumL _ (by simpa using hne)
+      intro x hx; obtain ⟨i, hi', rfl⟩ := List.mem_map.mp hx; have := (hi i hi').2.1; grind
+    exact Rat.le_trans (pyMax_mono_right (-(aggregate g.bats).el) _ _ hm) (pyMax_neg_le _ _)
+
+/-- A request admitted by the ADVERTISED bounds covers the sum of the groups' minimum powers. -/
+theorem admitted_min_powers (inp : Input) (hc : Consistent inp) (ha : Admitted inp) :
+    (0 < inp.power → sumL (inp.groups.map fun g => minPOf (normGroup false g)) ≤ inp.power) ∧
+    (inp.power < 0 → sumL (inp.groups.map fun g => minPOf (normGroup true g)) ≤ -inp.power) := by
+  unfold Admitted rejectedAdjust advertisedExcl at ha
+  obtain ⟨_, hrej⟩ := ha
+  simp only [] at hrej
+  have hup : sumL (inp.groups.map fun g => minPOf (normGroup false g)) ≤
+      sumL (inp.groups.map fun g => poolGroupExclUpper (aggregate g.bats).eu (sumL (g.invs.map (·.eu)))) :=
+    sumL_map_le _ _ inp.groups (fun g hg => (group_min_le_advertised g (hc.2 g hg)).1)
+  have hlo : sumL (inp.groups.map fun g => minPOf (normGroup true g)) ≤
+      sumL (inp.groups.map fun g => -(poolGroupExclLower (aggregate g.bats).el (sumL (g.invs.map (·.el))))) :=
+    sumL_map_le _ _ inp.groups (fun g hg => (group_min_le_advertised g (hc.2 g hg)).2)
+  have hneg : sumL (inp.groups.map fun g => -(poolGroupExclLower (aggregate g.bats).el (sumL (g.invs.map (·.el))))) =
+      -sumL (inp.groups.map fun g => poolGroupExclLower (aggregate g.bats).el (sumL (g.invs.map (·.el)))) :=
+    sumL_map_neg _ _
+  have hnn : 0 ≤ sumL (inp.groups.map fun g => minPOf (normGroup true g)) := by
+    apply sumL_nonneg; intro x hx; obtain ⟨g, hg, rfl⟩ := List.mem_map.mp hx
+    have := (itemOK_of_consistent true 0 0 g (hc.2 g hg)).1
+    simp only [mkItem] at this; exact this
+  have hnn' : 0 ≤ sumL (inp.groups.map fun g => minPOf (normGroup false g)) := by
+    apply sumL_nonneg; intro x hx; obtain ⟨g, hg, rfl⟩ := List.mem_map.mp hx
+    have := (itemOK_of_consistent false 0 0 g (hc.2 g hg)).1
+    simp only [mkItem] at this; exact this
+  rw [hneg] at hlo
+  generalize sumL (inp.groups.map fun g => poolGroupExclUpper (aggregate g.bats).eu (sumL (g.invs.map (·.eu)))) = A at *
+  generalize sumL (inp.groups.map fun g => poolGroupExclLower (aggregate g.bats).el (sumL (g.invs.map (·.el)))) = B at *
+  generalize sumL (inp.groups.map fun g => minPOf (normGroup true g)) = X at *
+  generalize sumL (inp.groups.map fun g => minPOf (normGroup false g)) = Y at *
+  clear hc
+  constructor
+  · intro hp; grind
+  · intro hp; grind
+
 end DistLemmas
